@@ -26,7 +26,7 @@ def diag_names(f):
 
 def sig(f):
     names = diag_names(f)
-    prop = [n for n in names if not n.startswith("model-differs") and not n.startswith("harness")]
+    prop = [n for n in names if not n.startswith("model:") and not n.startswith("harness")]
     return "+".join(prop or names) if names else (f.get("invariant") or "unexplained-line")
 
 
@@ -110,13 +110,13 @@ def run(ctx):
         if len(auths) < 3 or not feats["at_action_limit"] or not feats["actions_ge_128_bytes"] or not feats["more_than_16_actions"] \
                 or not feats["duplicate_keys_across_actions"]:
             raise vlib.Infra("vacuity: %s auths=%s" % (feats, sorted(auths)))
-    fails = vlib.validate_scenarios(ctx, "WireSize_Trace", "WireSize_Trace.cfg", files, label="tv", signature_fn=sig, max_reports=8)
+    fails = vlib.validate_scenarios(ctx, "WireSize_Trace", "WireSize_Trace.cfg", files, label="tv", signature_fn=sig, max_reports=3)
     for f in files:
         os.remove(f)
     real, drift = [], []
     for f in fails:
         names = diag_names(f)
-        if any(not x.startswith("model-differs") and not x.startswith("harness") for x in names) or not names:
+        if any(not x.startswith("model:") and not x.startswith("harness") for x in names) or not names:
             real.append(f)
         else:
             drift.append(f)
